@@ -572,6 +572,24 @@ func c05Check(c *harness.Ctx) {
 			}
 		}
 	}
+	// OPENs in the RFC 9072 extended optional-parameters format (length octet 255, type 255, 16-bit lengths)
+	// with capabilities whose length octets reach 253..255 with real data behind them
+	for _, capLens := range [][]int{{4}, {253}, {254}, {255}, {4, 254}, {255, 255}, {0, 255}} {
+		var caps []byte
+		for i, l := range capLens {
+			caps = append(caps, byte(65+i), byte(l))
+			caps = append(caps, bytes.Repeat([]byte{byte(0x30 + i)}, l)...)
+		}
+		for _, short := range []int{0, 1} { // exact, and one octet short
+			val := caps[:len(caps)-short]
+			param := append([]byte{2, byte(len(val) >> 8), byte(len(val))}, val...)
+			ext := append([]byte{255, byte(len(param) >> 8), byte(len(param))}, param...)
+			body := append([]byte{4, 0xfd, 0xea, 0, 90, 10, 0, 0, 2, 255}, ext...)
+			if len(body) <= 4077 {
+				streams = append(streams, wire.Frame(wire.TypeOpen, body))
+			}
+		}
+	}
 	nPlain := len(streams)
 	// truncations of valid messages, followed by FIN
 	var truncs [][]byte
